@@ -17,11 +17,11 @@ from harness import tlc, doubles
 PROP_FORMULAS = {
     'C07': ['NoRaise', 'OneOfSix', 'Accounted', 'PutAtMostOnce', 'StatusMatchesEffect', 'TextIsGenerated',
             'FailedCarriesError', 'OptionsPassed'],
-    'C08': ['Accounted', 'FetchAtMostOnce', 'SourceOrder', 'CompiledFromAccepted'],
-    'C09': ['AllOrNothing'],
-    'C10': ['FreshMeansUntouched', 'SearcherOrder', 'SearcherSeesSourceTime', 'NoDepsOnlyRequested',
+    'C08': ['NoRaise', 'Accounted', 'FetchAtMostOnce', 'SourceOrder', 'CompiledFromAccepted'],
+    'C09': ['NoRaise', 'Accounted', 'AllOrNothing'],
+    'C10': ['NoRaise', 'FreshMeansUntouched', 'SearcherOrder', 'SearcherSeesSourceTime', 'NoDepsOnlyRequested',
             'GeneratedWhenNeeded', 'OptionsPassed'],
-    'C19': ['BorrowOnlyFailures', 'FlavourMatch', 'BorrowOrder', 'Verbatim', 'NeverReplaceCompiled',
+    'C19': ['NoRaise', 'BorrowOnlyFailures', 'FlavourMatch', 'BorrowOrder', 'Verbatim', 'NeverReplaceCompiled',
             'RequestedStayEligible'],
 }
 ALL_FORMULAS = sorted(set(sum(PROP_FORMULAS.values(), [])))
@@ -38,12 +38,13 @@ SLICES = {
     'q3': (1, 2, 0, 'Req_q3', 'Src_q3', '{"fresh", "absent", "error"}', '{"ok", "err"}', '{}', '{"ok", "err"}'),
     'q4': (1, 1, 2, 'Req_q3', 'Src_q3', '{"fresh", "absent"}', '{"ok", "err"}', '{"ok", "nf", "err"}', '{"ok"}'),
     'q5': (1, 1, 1, 'Req_q3', 'Src_q3', '{"fresh", "absent", "silent"}', '{"ok", "err"}', '{"ok", "nf"}', '{"ok", "err"}'),
+    'q6': (2, 0, 0, 'Req_q6', 'Src_q6', '{}', '{"ok", "err"}', '{}', '{"ok"}'),
     't1': (2, 1, 1, 'Req_t1', 'Src_t1', '{"fresh", "absent"}', '{"ok", "err"}', '{"ok", "nf"}', '{"ok", "err"}'),
     't3': (1, 2, 2, 'Req_q3', 'Src_q3', '{"fresh", "absent", "error", "silent"}', '{"ok", "err"}', '{"ok", "nf", "err"}', '{"ok", "err"}'),
 }
-TIERS = {'quick': ['q1', 'q2', 'q3', 'q4', 'q5'], 'thorough': ['q1', 'q2', 'q3', 'q4', 'q5', 't1', 't3']}
+TIERS = {'quick': ['q1', 'q2', 'q3', 'q4', 'q5'], 'thorough': ['q1', 'q2', 'q3', 'q4', 'q5', 'q6', 't1', 't3']}
 # quick tier: the slices that exercise the property's own phases (thorough runs all of them for every property)
-QUICK = {'C07': ['q1', 'q2', 'q4', 'q5'], 'C08': ['q1', 'q2', 'q5'], 'C09': ['q2', 'q3', 'q4', 'q5'],
+QUICK = {'C07': ['q1', 'q2', 'q4', 'q5', 'q6'], 'C08': ['q1', 'q2', 'q6'], 'C09': ['q2', 'q4', 'q5', 'q6'],
          'C10': ['q2', 'q3', 'q5'], 'C19': ['q2', 'q4', 'q5']}
 
 
@@ -149,7 +150,7 @@ def run(out, prop, tier, seed, max_replay=None, only_slices=None):
             scs = rnd.sample(scs, cap)
         traces, raw = [], {}
         for i, sc in enumerate(scs):
-            tr = doubles.run_scenario(sc, nsrc, nsea, nbor)
+            tr = doubles.run_scenario(sc, nsrc, nsea, nbor, salt=seed + i)
             sid = '%s-%d' % (sl, i)
             raw[sid] = (sc, tr)
             traces.append(to_trace(sid, tr))
@@ -180,7 +181,7 @@ def run(out, prop, tier, seed, max_replay=None, only_slices=None):
                 for f in bad:
                     sig = 'formula=%s;dev=%s' % (f, dev)
                     out.violation(sig, '%s fails (model deviation that explains the trace: %s) on [%s]' % (f, dev, brief(tr)),
-                                  {'kind': 'mibcompile', 'slice': sl, 'nsrc': nsrc, 'nsea': nsea, 'nbor': nbor,
+                                  {'kind': 'mibcompile', 'slice': sl, 'salt': seed + int(t['id'].split('-')[1]), 'nsrc': nsrc, 'nsea': nsea, 'nbor': nbor,
                                    'scenario': sc, 'observed': tr, 'verdict': v})
             elif v['refine'] != 'ok':
                 out.add_drift('slice=%s at=%s expected=%s got=%s procOk=%s [%s]' % (
@@ -194,7 +195,7 @@ def run(out, prop, tier, seed, max_replay=None, only_slices=None):
 def replay(path):
     with open(path) as fh:
         rp = json.load(fh)['replay']
-    tr = doubles.run_scenario(rp['scenario'], rp['nsrc'], rp['nsea'], rp['nbor'])
+    tr = doubles.run_scenario(rp['scenario'], rp['nsrc'], rp['nsea'], rp['nbor'], salt=rp.get('salt', 0))
     t = to_trace('replay', tr)
     v, _ = validate([t], rp['nsrc'], rp['nsea'], rp['nbor'], workers=1)
     print(brief(tr))
